@@ -1134,22 +1134,11 @@ private:
         }
       }
 
-      // look for the next close bracket
-      size_t close_bracket_pos = fmt_template.find_first_of('}', open_bracket_pos + 1);
-      while (close_bracket_pos != std::string::npos)
+      // look for the next close bracket, it always closes the placeholder that was opened above
+      // even when more close brackets follow it, e.g. the escaped "}}" in "{{{name}}}"
+      size_t const close_bracket_pos = fmt_template.find_first_of('}', open_bracket_pos + 1);
+      if (close_bracket_pos != std::string::npos)
       {
-        // found closed bracket
-        if (size_t const close_bracket_2_pos = fmt_template.find_first_of('}', close_bracket_pos + 1);
-            close_bracket_2_pos != std::string::npos)
-        {
-          // found another open bracket
-          if ((close_bracket_2_pos - 1) == close_bracket_pos)
-          {
-            close_bracket_pos = fmt_template.find_first_of('}', close_bracket_2_pos + 1);
-            continue;
-          }
-        }
-
         // construct a fmt string excluding the characters inside the brackets { }
         std::string_view const text_inside_placeholders =
           fmt_template.substr(open_bracket_pos + 1, close_bracket_pos - (open_bracket_pos + 1));
@@ -1175,8 +1164,6 @@ private:
 
         // also add the keys to the vector
         keys.emplace_back(arg_name, arg_syntax);
-
-        break;
       }
 
       open_bracket_pos = fmt_template.find_first_of('{', close_bracket_pos);
